@@ -223,7 +223,7 @@ func checkC02(e *RunEnv) *CheckResult {
 				}
 				steps = append(steps, Run("add", p).WithTags(t...), Run("rm", p).WithTags(t...), Run("restore", "--staged", p).WithTags(t...))
 			}
-			steps = append(steps, Run("add", "lib").WithTags(t...), Run("commit", "-m", "m1").WithTags(t...), Run("commit", "-m", "100% of m2 %s").WithTags(t...),
+			steps = append(steps, Run("add", "lib").WithTags(t...), Run("commit", "-m", "m1").WithTags(t...), Run("commit", "-m", "100% of m2 %s").WithTags(t...), Run("commit", "-m", "subject\ntree x\nparent y\nauthor z").WithTags(t...),
 				Run("branch", "b").WithTags(t...), Run("switch", "b").WithTags(t...), Run("switch", "main").WithTags(t...), Run("reset", "--mixed", "HEAD@{1}").WithTags(t...))
 			return steps
 		},
